@@ -27,7 +27,7 @@ PY = "/venv/bin/python"
 DEFAULT_FILES = ["adb_device.py", "hidden_helpers.py", "adb_message.py", "constants.py", "transport/tcp_transport.py", "transport/tcp_transport_async.py",
                  "auth/keygen.py", "auth/sign_cryptography.py", "auth/sign_pythonrsa.py", "auth/sign_pycryptodome.py"]
 
-from sa.sweep import mutants_of, mutants2_of, mutants3_of, apply   # noqa: E402
+from sa.sweep import mutants_of, mutants2_of, mutants3_of, mutants4_of, apply   # noqa: E402
 
 
 def analyse(args):
@@ -83,7 +83,7 @@ def main():
     for rel in files:
         src = open(os.path.join("/repo/adb_shell", rel)).read()
         tree = ast.parse(src)
-        for desc, lineno, op in (mutants3_of(tree) if "--set3" in a else mutants2_of(tree) if "--set2" in a else mutants_of(tree)):
+        for desc, lineno, op in (mutants4_of(tree) if "--set4" in a else mutants3_of(tree) if "--set3" in a else mutants2_of(tree) if "--set2" in a else mutants_of(tree)):
             try:
                 txt = ast.unparse(apply(tree, op))
                 ast.parse(txt)
